@@ -428,7 +428,22 @@ struct Extractor {
     }
     if (const auto *IC = dyn_cast<ImplicitCastExpr>(E)) {
       QualType T = IC->getType();
-      return "[\"cast\"," + jstr(typeStr(T)) + "," + intType(T) + "," + ser(IC->getSubExpr()) + attrs(E, false, "\"impl\":1") + "]";
+      std::string extra = "\"impl\":1";
+      // conversion of an object pointer to void*: record the size of what it pointed to (byte-length rules)
+      if (T->isVoidPointerType()) {
+        const Expr *S = IC->getSubExpr()->IgnoreParenImpCasts();
+        QualType ST = IC->getSubExpr()->getType();
+        QualType PT;
+        if (ST->isPointerType()) PT = ST->getPointeeType();
+        if (PT.isNull() || PT->isVoidType()) {
+          QualType S2 = S->getType();
+          if (S2->isPointerType()) PT = S2->getPointeeType();
+          else if (const ArrayType *AT = Ctx.getAsArrayType(S2)) PT = AT->getElementType();
+        }
+        if (!PT.isNull() && !PT->isVoidType() && !PT->isIncompleteType() && !PT->isFunctionType())
+          extra += ",\"psz\":" + std::to_string(Ctx.getTypeSizeInChars(PT).getQuantity());
+      }
+      return "[\"cast\"," + jstr(typeStr(T)) + "," + intType(T) + "," + ser(IC->getSubExpr()) + attrs(E, false, extra) + "]";
     }
     if (const auto *VA = dyn_cast<VAArgExpr>(E))
       return "[\"va_arg\"," + jstr(typeStr(VA->getType())) + "," + ser(VA->getSubExpr()) + attrs(E, true) + "]";
